@@ -15,6 +15,11 @@ from typing import Any, Dict, Optional
 from .repo import AnalysisError, ModuleInfo, Repo
 
 
+def _opaque(v) -> bool:
+    """an uninterpreted value (partition.Opaque): no operator may turn it into a definite answer"""
+    return type(v).__name__ == "Opaque"
+
+
 class NotConstant(Exception):
     pass
 
@@ -202,13 +207,18 @@ class ConstEval:
             if op is None:
                 raise NotConstant(ast.dump(node.op))
             try:
-                return op(ev(node.left), ev(node.right))
+                l_, r_ = ev(node.left), ev(node.right)
+                if _opaque(l_) or _opaque(r_):
+                    raise NotConstant("operator applied to an uninterpreted value")
+                return op(l_, r_)
             except NotConstant:
                 raise
             except Exception as e:
                 raise NotConstant(str(e))
         if isinstance(node, ast.UnaryOp):
             v = ev(node.operand)
+            if _opaque(v):
+                raise NotConstant("operator applied to an uninterpreted value")
             if isinstance(node.op, ast.Not):
                 return not v
             if isinstance(node.op, ast.USub):
@@ -221,12 +231,16 @@ class ConstEval:
                 v = True
                 for x in node.values:
                     v = ev(x)
+                    if _opaque(v):
+                        raise NotConstant("truth value of an uninterpreted value")
                     if not v:
                         return v
                 return v
             v = False
             for x in node.values:
                 v = ev(x)
+                if _opaque(v):
+                    raise NotConstant("truth value of an uninterpreted value")
                 if v:
                     return v
             return v
@@ -234,6 +248,8 @@ class ConstEval:
             left = ev(node.left)
             for op, c in zip(node.ops, node.comparators):
                 right = ev(c)
+                if _opaque(left) or _opaque(right):
+                    raise NotConstant("comparison with an uninterpreted value")
                 try:
                     if not _CMPOPS[type(op)](left, right):
                         return False
@@ -242,7 +258,10 @@ class ConstEval:
                 left = right
             return True
         if isinstance(node, ast.IfExp):
-            return ev(node.body) if ev(node.test) else ev(node.orelse)
+            t_ = ev(node.test)
+            if _opaque(t_):
+                raise NotConstant("truth value of an uninterpreted value")
+            return ev(node.body) if t_ else ev(node.orelse)
         if isinstance(node, ast.Subscript):
             v = ev(node.value)
             if isinstance(v, (_ModRef, _StringModule)):
